@@ -22,7 +22,7 @@ def job(name):
 
 def dispatch(j):
     # late imports so that every module registers its job kinds
-    from . import cpjobs, diffjobs, histjobs, seljobs, concjobs, compjobs, locjobs  # noqa: F401
+    from . import cpjobs, diffjobs, histjobs, seljobs, concjobs, compjobs, locjobs, envjobs  # noqa: F401
 
     return REGISTRY[j["kind"]](j)
 
@@ -140,7 +140,7 @@ class Filtered:
         setattr(self._real, k, v)
 
     def violation(self, p, mech, w, r):
-        if self._only is None or mech in self._only:
+        if self._only is None or mech in self._only or any(o.endswith("*") and mech.startswith(o[:-1]) for o in self._only):
             self._real.violation(p, mech, w, r)
         else:
             self._real.counters["other_clause:" + mech] += 1
